@@ -19,6 +19,7 @@ import (
 	"github.com/tokenized/config"
 	"github.com/tokenized/pkg/bitcoin"
 	"github.com/tokenized/pkg/wire"
+	"pgregory.net/rapid"
 )
 
 func TestMain(m *testing.M) { vt.Main(m) }
@@ -93,6 +94,8 @@ func (s *spyPeers) counts() (adds, scores int) {
 }
 
 type Opts struct {
+	// Fragment: the scripted peer writes everything in pieces of these sizes (see p2p.Peer.Fragment)
+	Fragment   []int
 	VerifyOnly bool
 	TxManager  *bitcoin_reader.TxManager
 	Headers    *spyHeaders // shared between sessions when set
@@ -103,6 +106,15 @@ type Opts struct {
 	HeaderHandler bool
 	// PeerRcvBuf > 0: the scripted peer's socket has a receive buffer of that many bytes
 	PeerRcvBuf int
+}
+
+// genFragment draws how the scripted peer's writes are cut into pieces: in half of the cases not at
+// all, otherwise 1..4 piece sizes used cyclically over the first 600 bytes of every send.
+func genFragment(t *rapid.T) []int {
+	if rapid.Bool().Draw(t, "fragmented") {
+		return rapid.SliceOfN(rapid.SampledFrom(p2p.GenFragmentSizes), 1, 4).Draw(t, "pieces")
+	}
+	return nil
 }
 
 // appHeaderHandler reads a headers payload the way an application handler does.
@@ -154,6 +166,7 @@ func Start(t failer, o Opts) *Session {
 	if err != nil {
 		t.Fatalf("listen: %s", err)
 	}
+	peer.Fragment = o.Fragment
 	s := &Session{Peer: peer, Headers: o.Headers, Peers: o.Peers, interrupt: make(chan interface{}), done: make(chan error, 1)}
 	if s.Headers == nil {
 		s.Headers = newHeaders()
